@@ -12,9 +12,10 @@ from runner import props  # noqa: E402
 ids = [json.loads(l)["id"] for l in open(os.path.join(ROOT, "properties.jsonl"))]
 hook_commits = getattr(props, "HOOK_COMMITS", [])
 checks = []
+claimed = set(getattr(props, "CLAIMED", list(props.PROPS)))
 for pid in ids:
     cfg = props.PROPS.get(pid)
-    if not cfg:
+    if not cfg or pid not in claimed:
         continue
     checks.append({
         "property_id": pid,
@@ -29,10 +30,12 @@ for pid in ids:
     })
 na = []
 for pid in ids:
-    if pid not in props.PROPS:
+    if pid not in props.PROPS or pid not in claimed:
         na.append({"property_id": pid, "reason": props.NOT_YET.get(pid, "not claimed yet: model, theorems and correspondence check for this property are still being built (see DESIGN.md §9)")})
 engines = {}
 for pid, cfg in props.PROPS.items():
+    if pid not in claimed:
+        continue
     for s in cfg["streams"]:
         e = engines.setdefault(s.bin, {"name": s.bin, "path": f"harness/src/bin/{s.bin}.rs + lean/Driver", "serves_properties": [], "kind_free_text": props.ENGINE_TEXT.get(s.bin, "")})
         if pid not in e["serves_properties"]:
